@@ -362,7 +362,9 @@ def mala(
         drift = (step_size**2 / 2.0) * grad_val
 
         # Gaussian noise term: step_size * N(0,1)
-        noise = step_size * normal.sample(0.0, 1.0)
+        noise = step_size * normal.sample(
+            0.0, 1.0, sample_shape=jnp.shape(current_val)
+        )
 
         # Proposed value
         return current_val + drift + noise
@@ -482,13 +484,13 @@ def hmc(
     )
 
     # Helper functions for momentum
-    def sample_momentum(_):
+    def sample_momentum(x):
         """Sample momentum with same structure as reference value."""
-        return normal.sample(0.0, 1.0)
+        return normal.sample(0.0, 1.0, sample_shape=jnp.shape(x))
 
     def assess_momentum(momentum_val):
         """Compute log probability of momentum (standard normal)."""
-        return normal.logpdf(momentum_val, 0.0, 1.0)
+        return jnp.sum(normal.logpdf(momentum_val, 0.0, 1.0))
 
     # Initial model score (negative potential energy)
     prev_model_score = log_density_wrt_selected(selected_choices)
